@@ -11,6 +11,10 @@ theorem C10_on_tree_safe (v2 : Bool) : Safe (treeCfg v2) := ⟨C10_on_tree_facts
     a rollover flushes the segment it leaves (fixed D-45), and `LastOffset` is the synced offset -/
 theorem C10_on_tree_synced_is_flushed : Facts.walRolloverFlushesSegment = true ∧ Facts.walLastOffsetIsSynced = true ∧
     Facts.walSyncCallbacksOnlyForFlushedEntries = true := by decide
+
+/-- the log is terminated after every appended record (fixed D-51: what a recovery had discarded behind the
+    end of the log was walked into again after the next append) -/
+theorem C10_on_tree_append_terminates_log : Facts.walAppendTerminatesLog = true := by decide
 theorem C10_on_tree_header_sizes : Facts.codecV2HeaderSize = 12 ∧ Facts.codecV1HeaderSize = 4 := by decide
 
 /-- on the current tree recovery never panics, in both formats -/
